@@ -1,6 +1,6 @@
 """C16 — concurrent aggregation records every subject exactly once, intact."""
 from __future__ import annotations
-import os, shutil, itertools, time, csv, builtins
+import os, shutil, itertools, time, csv, builtins, threading
 import numpy as np
 import forms, impl, aggsched
 from impl import quiet
@@ -56,10 +56,16 @@ def reference_row(name, k):
     if (name, k) in _REF_ROWS:
         return _REF_ROWS[(name, k)]
     d = workdir("c16ref")
-    with quiet():
-        agg = PA.Panoptica_Aggregator(mk_evaluator(), os.path.join(d, "r.tsv"))
-        a, b = subject_arrays(k)
-        agg.evaluate(a, b, name)
+    # a sequential run of its own: plain locks of its own, whatever state a schedule under test left the shared ones in
+    saved = PA.filelock, PA.inevalfilelock
+    PA.filelock, PA.inevalfilelock = threading.Lock(), threading.Lock()
+    try:
+        with quiet():
+            agg = PA.Panoptica_Aggregator(mk_evaluator(), os.path.join(d, "r.tsv"))
+            a, b = subject_arrays(k)
+            agg.evaluate(a, b, name)
+    finally:
+        PA.filelock, PA.inevalfilelock = saved
     with builtins.open(os.path.join(d, "r.tsv"), newline="") as f:
         rows = list(csv.reader(f, delimiter="\t"))
     shutil.rmtree(d, ignore_errors=True)
@@ -78,7 +84,7 @@ def _one_schedule(ctx, names, kinds, sched, src, old):
     N = len(names)
     inp = {"names": names, "kinds": kinds, "schedule": sched, "src": src, "old": old}
     d = workdir("c16")
-    H = aggsched.Harness(d)
+    H = aggsched.Harness(d, split_rows=True)
     try:
         uniq = sorted(set(names) | set(old))
         code = {n: uniq.index(n) + 1 for n in uniq}
@@ -123,8 +129,12 @@ def _one_schedule(ctx, names, kinds, sched, src, old):
             k += 1
             did = H.C.step(i)
             ops.append(["thread", i])
-            if did == ("write", "out"):
-                ops.append(["thread", i])
+            if did == ("write", "out") and H.C.at.get(i) != ("write2", "out"):
+                ops.append(["thread", i])        # the row went to disk in one piece: both halves of the model's append
+            if did == ("write2", "out"):
+                ctx.count("row_appended_in_two_halves")
+            elif did == ("stat", "out") and any(H.C.at.get(j) == ("write2", "out") for j in range(N)):
+                ctx.count("statistic_requested_while_a_row_is_half_written")
             o = H.observe()
             o["at"] = [H.C.at.get(j) for j in range(N)]
             obs.append((len(ops) - 1, o))
@@ -150,6 +160,7 @@ def _one_schedule(ctx, names, kinds, sched, src, old):
             fails.append(f"thread {i} raised {type(e).__name__}: {e}")
         if not all_done:
             fails.append("a call is still blocked after every thread was given 40 further turns")
+            _BLOCKED.append(src)
         want = sorted({n for n, kd in zip(names, kinds) if kd == "eval"} | set(old))
         if final["hdrs"] != 1:
             fails.append(f"header present {final['hdrs']} times")
@@ -162,6 +173,10 @@ def _one_schedule(ctx, names, kinds, sched, src, old):
         for i, seen in stats.items():
             if any(s not in want for s in seen):
                 fails.append(f"statistics object saw subjects {seen} that are not complete rows")
+        for snap in H.stat_snaps:
+            if snap and not snap.endswith("\n"):
+                fails.append("make_statistic() read the output file while a row was half written (last line incomplete: "
+                             f"{snap.splitlines()[-1][:40]!r}...)")
         if fails:
             ctx.violation("C16 violated: " + fails[0], inp, impl={"final": {k2: final[k2] for k2 in ("hdrs", "rows", "buf")}}, key={"kind": "concurrent"})
         # ---------------- correspondence with the Lean machine, step by step
@@ -192,10 +207,35 @@ def _one_schedule(ctx, names, kinds, sched, src, old):
         shutil.rmtree(d, ignore_errors=True)
 
 
+_BLOCKED = []      # once real processes were seen blocking forever, further process runs would only wait for the same timeouts
+
+
+def unleak():
+    """the module's two locks must be free once every call has returned; a lock left held would block every later call.
+    Returns the names of locks found held (and frees them so that the rest of the run is not affected)."""
+    held = []
+    for nm in ("inevalfilelock", "filelock"):
+        l = getattr(PA, nm)
+        if isinstance(l, aggsched.MLock):
+            continue
+        try:
+            if l.acquire(False):
+                l.release()
+            else:
+                held.append(nm)
+                l.release()
+        except Exception:      # noqa
+            pass
+    return held
+
+
 def fork_run(ctx, n_proc, names, delay, src):
     """forked worker processes on one aggregator created in the parent; claim writes delayed to widen the race"""
     import multiprocessing as mp
     inp = {"mode": "fork", "names": names, "delay": delay, "src": src}
+    if _BLOCKED:
+        ctx.count("process_runs_skipped_after_blocking")
+        return
     d = workdir("c16fork")
     real_write = PA._write_content
 
@@ -230,8 +270,12 @@ def fork_run(ctx, n_proc, names, delay, src):
         ctx.count("forked_process_runs")
         got = sorted(r[0] for r in rows[1:])
         fails = []
+        held = unleak()
         if blocked:
-            fails.append(f"{len(blocked)} worker processes still blocked after 60 s")
+            _BLOCKED.append(src)
+            fails.append(f"{len(blocked)} worker processes still blocked after 60 s" + (f" (lock {held[0]} was left held by a call that returned)" if held else ""))
+        elif held:
+            fails.append(f"lock {held[0]} is still held after every call returned: any later call blocks forever")
         if rows[0][0] != "subject_name" or got != uniq:
             fails.append(f"forked workers: output holds rows for {got}, expected exactly one per subject {uniq}")
         else:
@@ -254,6 +298,9 @@ def pool_run(ctx, n_subjects, repeat, src):
     names = [f"subject_{k:02d}" for k in range(n_subjects)]
     submitted = names * repeat
     inp = {"mode": "pool", "names": submitted, "src": src}
+    if _BLOCKED:
+        ctx.count("process_runs_skipped_after_blocking")
+        return
     d = workdir("c16pool")
     try:
         impl.serial_pool(True)
@@ -268,6 +315,10 @@ def pool_run(ctx, n_subjects, repeat, src):
                 r.get(timeout=120)
         except Exception as e:
             err = type(e).__name__
+            if err == "TimeoutError":
+                _BLOCKED.append(src)
+                err = "TimeoutError (tasks still blocked after 120 s)"
+        held = unleak()
         with builtins.open(os.path.join(d, "out.tsv"), newline="") as f:
             rows = list(csv.reader(f, delimiter="\t"))
         ctx.case(inp, True)
@@ -276,6 +327,8 @@ def pool_run(ctx, n_subjects, repeat, src):
         fails = []
         if err:
             fails.append(f"pool workers: starmap(aggregator.evaluate) failed with {err}")
+        elif held:
+            fails.append(f"lock {held[0]} is still held after every call returned: any later call blocks forever")
         if not rows or rows[0][0] != "subject_name" or got != names:
             fails.append(f"pool workers: output holds rows for {got}, expected exactly one per subject {names}")
         else:
@@ -309,11 +362,13 @@ def locale_sessions(ctx, pid, src):
     task = {"kind": "aggregate", "path": os.path.join(d, "out.tsv"), "cfg": cfg, "global_metrics": ["DSC"], "sessions": [first, second]}
     inp = {"mode": "child interpreter with LC_ALL=C (locale encoding not UTF-8)", "names": names, "sessions": [[n for n, _, _ in first], [n for n, _, _ in second]], "src": src}
     try:
-        res = forms.run_child([{"kind": "info"}, task], optimize=False, extra_env=forms.C_LOCALE)
+        res = forms.run_child([{"kind": "info"}, task], optimize=False, extra_env=forms.C_LOCALE, timeout=240)
     finally:
         shutil.rmtree(d, ignore_errors=True)
     ctx.case(inp, True)
     ctx.count("non_utf8_locale_child")
+    if isinstance(res, dict) and res.get("error") == "timeout":
+        return inp, {"rows": [[]], "errors": ["the sessions did not finish within 240 s (a call blocks)"]}, {}
     if isinstance(res, dict) or isinstance(res[1], str):
         ctx.notes.append("locale child could not be run: " + str(res)[:200])
         return inp, None, None
@@ -324,6 +379,9 @@ def locale_sessions(ctx, pid, src):
 
 
 def locale_case(ctx, src):
+    if _BLOCKED:
+        ctx.count("process_runs_skipped_after_blocking")
+        return
     inp, out, want = locale_sessions(ctx, "C16", src)
     if out is None:
         return
